@@ -31,6 +31,8 @@ package recovery
 //@   requires [offset-non-negative] offset >= 0
 //@   loop 1 invariant [every-record-from-the-offset-on-is-applied] i >= 0 && headersApplied == old(headersApplied) + ite(i > offset, i - offset, 0)
 //@   at call PurgeAllHeaders#1 assert [no-purge-unless-overwrite] overwrite
+//@   property C09
+//@   loop 1 invariant [a-record-that-cannot-be-unsealed-is-never-skipped] i >= 0 && headersApplied == old(headersApplied) + ite(i > offset, i - offset, 0)
 //@   property C08
 //@   maybe verifyHeader is HeaderVerifier|NoopVerifier
 //@   maybe decryptHeader is HeaderSubst|HeaderDecryptor
@@ -81,9 +83,10 @@ package recovery
 //@   property C10 also C11
 //@   safety C10
 //@   modifies *, indexWrites, hdrVerified[hdr], hdrSubstituted[hdr], hdrSealed[hdr], ghosts(C14), rowWrites, ghosts(C12), keyMoves, upserts, headersApplied
-//@   property C07
+//@   property C07 also C09
 //@   ghostset headersApplied := old(headersApplied) + 1
 //@   ensures [counted] headersApplied == old(headersApplied) + 1
+//@   property C07
 //@   ensures [a-create-record-always-replaces-its-row] result == nil && (!old(has(hdr.PAXRecords, "STFS.Version")) || old(hdr.PAXRecords["STFS.Version"]) == "1") && (!old(has(hdr.PAXRecords, "STFS.Action")) || old(hdr.PAXRecords["STFS.Action"]) == "CREATE") ==> upserts == old(upserts) + 1
 //@   ensures [move-record-rewrites-key] old(has(hdr.PAXRecords, "STFS.ReplacesName")) && (!old(has(hdr.PAXRecords, "STFS.Version")) || old(hdr.PAXRecords["STFS.Version"]) == "1") && old(hdr.PAXRecords["STFS.Action"]) == "UPDATE" && result == nil ==> keyMoves == old(keyMoves) + 1
 //@   property C04
